@@ -6,7 +6,7 @@ from xsdata.codegen.models import Attr, AttrType, Class, Extension, Restrictions
 from xsdata.models.enums import DataType, Tag
 from xsdata.utils import collections, text
 from xsdata.utils.constants import DEFAULT_ATTR_NAME
-from xsdata.utils.namespaces import build_qname
+from xsdata.utils.namespaces import build_qname, split_qname
 
 
 class DisambiguateChoices(RelativeHandlerInterface):
@@ -162,6 +162,9 @@ class DisambiguateChoices(RelativeHandlerInterface):
             max_occurs=choice.restrictions.max_occurs,
         )
 
+        if not inner:
+            self.rename_conflicting_class(ref_class)
+
         ref_type = AttrType(
             qname=ref_class.qname,
             reference=id(ref_class),
@@ -174,6 +177,26 @@ class DisambiguateChoices(RelativeHandlerInterface):
         else:
             ref_class.parent = target
             target.inner.append(ref_class)
+
+    def rename_conflicting_class(self, ref_class: Class) -> None:
+        """Rename the outer class if a different class has the same name.
+
+        Outer classes with the same qualified name are merged later, but
+        the comparison ignores the attr and extension types, e.g. two
+        choices with the same name and different simple types.
+
+        Args:
+            ref_class: The intermediate outer class
+        """
+
+        def conflicts(other: Class) -> bool:
+            return ref_class != other or list(ref_class.types()) != list(other.types())
+
+        namespace, name = split_qname(ref_class.qname)
+        index = 0
+        while self.container.find(ref_class.qname, conflicts):
+            index += 1
+            ref_class.qname = build_qname(namespace, f"{name}_{index}")
 
     def is_simple_type(self, choice: Attr) -> bool:
         """Return whether the choice attr is a simple type reference."""
